@@ -137,6 +137,13 @@ var c16Values = []struct {
 	{"long", []string{strings.Repeat("k", 200)}, nil, true},
 	{"inner-space", []string{"a b"}, nil, true},
 	{"non-ascii", []string{"\xc3\xa4-id"}, nil, true},
+	// bytes above 0x7f that are no UTF-8 (Latin-1 text, a lone high byte): legal in a field value
+	{"latin-1", []string{"commande-caf\xe9-1"}, nil, true},
+	{"high-byte", []string{"id-\xff"}, []string{"\x80t"}, false},
+	// characters that Unicode calls white space but HTTP does not (no-break space, ideographic
+	// space, line separator) at the edges of the value: part of the ID like any other character
+	{"edge-nbsp", []string{"abc\u00a0"}, []string{"\u3000trace-1"}, false},
+	{"edge-line-separator", []string{"\u2028id\u0085"}, nil, true},
 	{"empty", []string{""}, nil, true},
 	{"two-lines", []string{"first", "second"}, nil, true},
 	// letter case and characters that mean something in header syntax must survive untouched
@@ -258,7 +265,7 @@ func TestVerifC16(t *testing.T) {
 								}
 								supplied := ""
 								if len(mine) > 0 {
-									supplied = strings.TrimSpace(mine[0])
+									supplied = strings.Trim(mine[0], " \t")
 								}
 								if !id.on {
 									// neither generated nor altered
@@ -316,7 +323,7 @@ func TestVerifC16(t *testing.T) {
 		}
 	}
 	r.AddScenario(vres.Scenario{Name: "id-propagation-product", Engine: "W", Evaluations: evals, Distinct: int64(outs.N()), Outcomes: outs.N(),
-		Rule:  "request_id on/off x trace on/off x 9 header-name sets (default, custom, mixed, padded, underscores, token punctuation, one letter) x 13 response paths (two with a plugin that sets the ID header itself) x 12 client value shapes (incl. one header only, distinct values, mixed case, delimiter characters) x backend silent / echoing / answering with foreign IDs; distinct = distinct (path, toggles, value shape) classes that produced the expected status",
+		Rule:  "request_id on/off x trace on/off x 9 header-name sets (default, custom, mixed, padded, underscores, token punctuation, one letter) x 13 response paths (two with a plugin that sets the ID header itself) x 16 client value shapes (incl. one header only, distinct values, mixed case, delimiter characters) x backend silent / echoing / answering with foreign IDs; distinct = distinct (path, toggles, value shape) classes that produced the expected status",
 		Bound: "full product, one Helios instance per (toggles, names, path)", Exhaustive: true, Sample: sample,
 		Extra: map[string]interface{}{"wall_s": time.Since(start).Seconds()}})
 }
@@ -324,7 +331,7 @@ func TestVerifC16(t *testing.T) {
 func trimAll(l []string) []string {
 	var out []string
 	for _, x := range l {
-		out = append(out, strings.TrimSpace(x))
+		out = append(out, strings.Trim(x, " \t")) // optional white space of a field value: space and tab only
 	}
 	return out
 }
